@@ -685,8 +685,14 @@ def tobool(v):
 
 
 def _sqrt(ev, st, x):
-    s = ev.newsym("sqrt")
     x = tonum(x)
+    # sqrt is a function: one symbol per (syntactically normalised) radicand
+    cache = ev.__dict__.setdefault("sqrt_cache", {})
+    key = z3.simplify(x).sexpr()
+    if key in cache:
+        return cache[key]
+    s = ev.newsym("sqrt")
+    cache[key] = s
     ev.side.append(s >= 0)
     ev.side.append(s * s == x)
     ev.oblig.append(("sqrt_argument_nonnegative", x >= 0))
@@ -698,7 +704,18 @@ def _fabs(ev, st, x):
     return z3.If(x < 0, -x, x)
 
 
+def _uf1(name):
+    """transcendental libm function: nothing is known about its value"""
+    def m(ev, st, x):
+        # a fresh unconstrained real per evaluation (a sound over-approximation of "some function of x"; an uninterpreted FUNCTION
+        # would take the problem out of z3's complete non-linear real fragment)
+        return ev.newsym(name)
+    return m
+
+
 BUILTIN_MODELS = {
+    "verif_acosf": _uf1("acos"), "verif_acos": _uf1("acos"), "verif_asinf": _uf1("asin"), "verif_asin": _uf1("asin"),
+    "verif_sinf": _uf1("sin"), "verif_sin": _uf1("sin"), "verif_cosf": _uf1("cos"), "verif_cos": _uf1("cos"),
     "verif_sqrtf": _sqrt, "verif_sqrt": _sqrt,
     "__builtin_fabsf": _fabs, "__builtin_fabs": _fabs, "verif_abs_i": _fabs, "verif_abs_l": _fabs, "verif_abs_ll": _fabs,
 }
